@@ -69,7 +69,7 @@ def run(chk):
     # ---- random bodies in every position ----
     n = chk.scale(400, 6000)
     for i in range(n):
-        pos = rng.choice(["init", "init2", "ptrs", "call", "asm", "char", "multi"])
+        pos = rng.choice(["init", "init2", "ptrs", "call", "asm", "char", "multi", "splice", "call2", "calls", "expr2"])
         b1, c1 = rand_body(rng)
         b2, c2 = rand_body(rng)
         deco = rng.choice(["", " // tail \"q", " /* c \" */", ""])
@@ -85,6 +85,20 @@ def run(chk):
         elif pos == "call":
             src = 'char *p;\nvoid f(char *q) { p = q; }\nvoid main() { f("%s");%s\n}\n' % (b1, deco)
             want = {"cctmp0": c1 + [0]}
+        elif pos == "splice":     # a literal continued over a backslash-newline: the blanks that start the next line belong to it
+            ws = rng.choice([" ", "    ", "\t", " \t ", ""])
+            src = 'const char s[] = "%s\\\n%s%s";%s\nvoid main() {}\n' % (b1, ws, b2, deco)
+            want = {"s": c1 + [ord(ch) for ch in ws] + c2 + [0]}
+        elif pos == "call2":      # two literals as arguments of one call
+            src = 'char *p, *q;\nvoid f(char *a, char *b) { p = a; q = b; }\nvoid main() { f("%s", "%s");%s\n}\n' % (b1, b2, deco)
+            want = {"*": [c1 + [0], c2 + [0]]}
+        elif pos == "calls":      # literals in several calls of one expression (each call is parsed as a nested expression)
+            b3, c3 = rand_body(rng)
+            src = 'char *p;\nchar f(char *a) { p = a; return 1; }\nvoid main() { if (f("%s") %s f("%s")) p = "%s";%s\n}\n' % (b1, rng.choice(["&&", "||"]), b2, b3, deco)
+            want = {"*": [c1 + [0], c2 + [0], c3 + [0]]}
+        elif pos == "expr2":
+            src = 'char *p; char x;\nchar f(char *a) { p = a; return 1; }\nvoid main() { x = f("%s") + f("%s");%s\n}\n' % (b1, b2, deco)
+            want = {"*": [c1 + [0], c2 + [0]]}
         elif pos == "multi":
             src = '#define MAX 9\nconst char a[] = "%s"; const char b[] = "%s";%s\nvoid main() {}\n' % (b1, b2, deco)
             want = {"a": c1 + [0], "b": c2 + [0]}
@@ -125,6 +139,13 @@ def run(chk):
             if got != [txt]:
                 chk.fail("asm-text-changed", "asm text is %r, written %r" % (got, txt), {"source": src})
             continue
+        if "*" in want:
+            # every literal of the statement has its own variable: the stored arrays, as a multiset
+            got = sorted(arr_values(v) for n_, v in vars_.items() if n_.startswith("cctmp") and n_ != "cctmp" and arr_values(v) is not None)
+            if got != sorted(want["*"]):
+                chk.fail("literal-lost-in-expression", "the literals of one statement are stored as %s, written %s" % (got, sorted(want["*"])),
+                         {"source": src, "stored": got, "expected": sorted(want["*"])})
+            continue
         for name, codes in want.items():
             v = vars_.get(name)
             if v is None:
@@ -143,7 +164,7 @@ def run(chk):
                 chk.fail(sig, "literal %s has size %d but %d bytes" % (name, v["size"], len(codes)), {"source": src, "size": v["size"], "bytes": len(codes)})
                 break
         # decode tie
-        if pos in ("init", "ptrs", "call", "multi"):
+        if pos in ("init", "ptrs", "call", "multi") and "*" not in want:
             ma = m.req("lit " + hx(b1))
             v = vars_.get(list(want)[0])
             if v is not None and arr_values(v) is not None and ma != "ok " + " ".join(str(x) for x in arr_values(v)):
